@@ -249,6 +249,22 @@ func (f *fullRun) nsRoundRun(rd *nsRound) {
 		}
 		from := f.u.Log.Len()
 		out := f.qNoQuiesce("local-"+cause, f.client(), victim, dns.TypeA, cause)
+		// authsim notes a packet's outcome AFTER sending the reply: give its
+		// server goroutines a moment to finish the bookkeeping of what the
+		// resolver has already received (decides only whether the round counts)
+		for settle := time.Now().Add(2 * time.Second); time.Now().Before(settle); time.Sleep(200 * time.Microsecond) {
+			pending := false
+			for _, p := range f.u.Log.Since(from) {
+				for _, h := range rd.hosts {
+					if p.QNameL == h.name && p.Outcome == "" {
+						pending = true
+					}
+				}
+			}
+			if !pending {
+				break
+			}
+		}
 		referral, toZone := 0, 0
 		perHost := map[string]int{}
 		failedAs := map[string]bool{}
